@@ -914,6 +914,11 @@ func (p *ValidateTxAndPayClaimInvoiceAction) Execute(services *SwapServices, swa
 	if !ok {
 		return swap.HandleError(errors.New("tx is not valid"))
 	}
+	if swap.ClaimPreimage != "" {
+		// The payment already succeeded and was persisted; this is a
+		// re-execution after a restart. Never pay (or fail) again.
+		return Event_ActionSucceeded
+	}
 	if !policy.AllowNewClaimPayment {
 		if swap.ClaimPreimage != "" {
 			return Event_ActionSucceeded
